@@ -324,6 +324,10 @@ Definition avail (bf : option N) (pend : amap) (tr : list (item * op)) : list it
 Definition proj (a : N) (tr : list (item * op)) : list tx :=
   map (fun p => it_tx (fst p)) (filter (fun p => it_from (fst p) =? a) tr).
 
+(* account [a] was never popped in [tr] *)
+Definition no_pop (a : N) (tr : list (item * op)) : Prop :=
+  forall it, In (it, OPop) tr -> it_from it <> a.
+
 Definition total_len (aq : aqueues) : nat :=
   fold_right (fun p n => (length (snd p) + n)%nat) O aq.
 
